@@ -39,7 +39,12 @@ func genOne(r *rand.Rand, types [][2]string, nfn int) *profile.Profile {
 	for _, t := range types {
 		p.SampleType = append(p.SampleType, &profile.ValueType{Type: t[0], Unit: t[1]})
 	}
-	m := &profile.Mapping{ID: 1, Start: 0x1000, Limit: 0x9000, File: "/bin/prog"}
+	// the binary is loaded at another address in every run (ASLR)
+	shift := uint64(r.Intn(4)) * 0x100000
+	if r.Intn(2) == 0 {
+		shift = 0
+	}
+	m := &profile.Mapping{ID: 1, Start: 0x1000 + shift, Limit: 0x9000 + shift, File: "/bin/prog"}
 	p.Mapping = []*profile.Mapping{m}
 	// every profile holds its own subset of the tuple's nfn functions, in its own order, with
 	// dense ids: table sizes and id assignments differ from one profile of a tuple to the next
@@ -49,11 +54,11 @@ func genOne(r *rand.Rand, types [][2]string, nfn int) *profile.Profile {
 	}
 	// one location per function plus one inlined pair
 	for i, u := range sub {
-		p.Location = append(p.Location, &profile.Location{ID: uint64(i + 1), Mapping: m, Address: 0x1000 + uint64(u)*16, Line: []profile.Line{{Function: p.Function[i], Line: 1}}})
+		p.Location = append(p.Location, &profile.Location{ID: uint64(i + 1), Mapping: m, Address: m.Start + uint64(u)*16, Line: []profile.Line{{Function: p.Function[i], Line: 1}}})
 	}
 	if r.Intn(2) == 0 {
 		a, b := r.Intn(len(sub)), r.Intn(len(sub))
-		p.Location = append(p.Location, &profile.Location{ID: uint64(len(sub) + 1), Mapping: m, Address: 0x1800 + uint64(sub[a]*16+sub[b]), Line: []profile.Line{{Function: p.Function[a], Line: 2}, {Function: p.Function[b], Line: 3}}})
+		p.Location = append(p.Location, &profile.Location{ID: uint64(len(sub) + 1), Mapping: m, Address: m.Start + 0x800 + uint64(sub[a]*16+sub[b]), Line: []profile.Line{{Function: p.Function[a], Line: 2}, {Function: p.Function[b], Line: 3}}})
 	}
 	for i, n := 0, 1+r.Intn(6); i < n; i++ {
 		s := &profile.Sample{}
@@ -122,6 +127,38 @@ func expected(ins []input, tname string) (map[string]expEntry, int64) {
 }
 
 // total of the merged profile: samples with equal (stack, labels) are summed first
+// expectedAddr is expected at address granularity: entries are told apart by their address
+// relative to the binary's start, and shown at the address they have in the first source.
+func expectedAddr(ins []input, tname string) map[string]expEntry {
+	finest := int64(math.MaxInt64)
+	for _, in := range ins {
+		f := unitFactor[in.p.SampleType[typeIndex(in.p, tname)].Unit]
+		if f < finest {
+			finest = f
+		}
+	}
+	first := ins[0].p.Mapping[0].Start
+	out := map[string]expEntry{}
+	for _, in := range ins {
+		idx := typeIndex(in.p, tname)
+		f := unitFactor[in.p.SampleType[idx].Unit] / finest
+		rep := ref.Report(in.p, ref.ROpts{Gran: "addresses", Index: idx})
+		for k, e := range rep.Entries {
+			k.Addr = k.Addr - in.p.Mapping[0].Start + first
+			x := out[k.Printable()]
+			x.flat += in.sign * f * e.Flat
+			x.cum += in.sign * f * e.Cum
+			out[k.Printable()] = x
+		}
+	}
+	for k, e := range out {
+		if e.flat == 0 && e.cum == 0 {
+			delete(out, k)
+		}
+	}
+	return out
+}
+
 func mergedTotal(ins []input, tname string, finest int64, diffBase bool) int64 {
 	sums := map[string]int64{}
 	var baseTotal int64
@@ -238,6 +275,7 @@ func runLinear(c *harness.Ctx) harness.Result {
 		srcs = append(srcs, name)
 		ins = append(ins, input{name, p, 1})
 	}
+	dup := r.Intn(8) == 0
 	self := false
 	for i := 0; i < nb; i++ {
 		name := fmt.Sprintf("b%d", i)
@@ -252,6 +290,11 @@ func runLinear(c *harness.Ctx) harness.Result {
 		profs[name] = p
 		bases = append(bases, name)
 		ins = append(ins, input{name, p, -1})
+	}
+	if dup && !self {
+		// the same source named twice counts twice
+		srcs = append(srcs, srcs[0])
+		ins = append(ins, input{srcs[0], profs[srcs[0]], 1})
 	}
 	want, finest := expected(ins, chosen.name)
 	unit := ""
@@ -285,6 +328,23 @@ func runLinear(c *harness.Ctx) harness.Result {
 	}
 	if self && len(got) != 0 {
 		return harness.Violation("%s: a profile minus itself is not empty: %s", desc, fmtMap(got))
+	}
+	// the same at address granularity (the binary is loaded at different addresses in the inputs)
+	if c.Index%3 == 0 {
+		outA, e := runTop(profs, srcs, bases, mode, chosen.name, unit, map[string]bool{"addresses": true}, "top")
+		if e != "" {
+			return harness.Violation("%s -addresses: %s", desc, e)
+		}
+		_, rowsA, err := parse.Top(outA)
+		if err != nil {
+			return harness.Violation("%s: -top -addresses unparseable: %v\n%s", desc, err, outA)
+		}
+		c.Stat("address_level_runs", 1)
+		if gotA, wantA := rowsToMap(rowsA), expectedAddr(ins, chosen.name); fmtMap(gotA) != fmtMap(wantA) {
+			res.Verdict = harness.Violated
+			res.Detail = fmt.Sprintf("%s -addresses: report is not the entry-wise signed sum per address relative to the binary (shown at the first source's addresses)\n got: %s\nwant: %s\n%s\n%s", desc, fmtMap(gotA), fmtMap(wantA), outA, describe(ins))
+			return res
+		}
 	}
 	wantTotal := mergedTotal(ins, chosen.name, finest, mode == "diff_base")
 	if h.Found && h.Total != wantTotal {
@@ -507,7 +567,7 @@ func init() {
 	harness.Register(&harness.Check{
 		ID:    "C07",
 		Level: "exploration",
-		Rule: "part linear: tuples of 1-3 sources and 0-2 bases over one universe of 2-7 named frames of which every profile holds its own subset in its own order with dense ids (table sizes and id assignments differ from profile to profile), sample types n/count, t/{ms,us,ns}, w/{ms,us,ns} (same unit family as t), b/{bytes,kb} in permuted order and partially overlapping, zero columns next to non-zero ones, a base that is the source itself re-expressed in other units / type order; modes plain, -base, -diff_base; observed through the real driver's -top (trim=false, unit = finest unit) and -proto reopened. part normalize: -normalize with -base / -diff_base, columns whose totals are made equal (ratio exactly 1). " +
+		Rule: "part linear: tuples of 1-3 sources (one of them sometimes listed twice) and 0-2 bases over one universe of 2-7 named frames of which every profile holds its own subset in its own order with dense ids (table sizes and id assignments differ from profile to profile), sample types n/count, t/{ms,us,ns}, w/{ms,us,ns} (same unit family as t), b/{bytes,kb} in permuted order and partially overlapping, zero columns next to non-zero ones, a base that is the source itself re-expressed in other units / type order; modes plain, -base, -diff_base; observed through the real driver's -top (trim=false, unit = finest unit), -top -addresses (the binary is mapped at a different start address in every input; entries are matched by address relative to it) and -proto reopened. part normalize: -normalize with -base / -diff_base, columns whose totals are made equal (ratio exactly 1). " +
 			"oracle: entry-wise signed sum of the individual reference reports with exact integer unit conversion; header total = sum |merged values| (diff_base: sum |base|); p - p empty; saved -proto reopened gives the same rows and header; normalize: every entry within half a unit per contributing sample of (base total / source total) x source - base in exact rationals. non-trivial = at least 2 profiles; distinct = run description",
 		Assumptions: []string{"units convert exactly because values are converted to the finest unit present", "sample types are matched by name in first-profile order; types absent from some profile are not reported"},
 		Parts: []harness.Part{
